@@ -321,7 +321,7 @@ def coq_cases(tag, imports, terms, shard=400, timeout=900):
     """Evaluate boolean case terms inside Coq with vm_compute.
     terms: list of Coq terms of type bool ("model output == implementation output").
     Returns (failing_indices, errors) where errors is a list of (shard, log)."""
-    d = BUILD / 'cases' / tag
+    d = BUILD / 'cases' / ('%s.%d' % (tag, os.getpid()))     # per process: concurrent runs do not collide
     if d.exists():
         shutil.rmtree(d)
     d.mkdir(parents=True)
@@ -356,7 +356,7 @@ def coq_cases(tag, imports, terms, shard=400, timeout=900):
 
 def coq_eval(tag, imports, term, timeout=300):
     """Evaluate one term and return Coq's printed value (for replay files / diagnosis)."""
-    d = BUILD / 'cases' / (tag + '_eval')
+    d = BUILD / 'cases' / ('%s_eval.%d' % (tag, os.getpid()))
     if d.exists():
         shutil.rmtree(d)
     d.mkdir(parents=True)
